@@ -187,3 +187,82 @@ def state_reset(ctx):
         r0 = next(iter(rs))
         out.append(ok("capture-state-empty") if "paren_count: 0" in r0 and "startn: vec![Option::None, Option::None, Option::None]" in r0 and "endn: vec![Option::None, Option::None, Option::None]" in r0 else bad("capture-state-empty", "a fresh capture state must have paren_count 0 and unset spans; found %s" % r0[:200], cn.loc()))
     return out
+
+
+def _origin(b, se, l, depth=0):
+    """Expression that initialises local l: the result of the call that defines it, followed through plain moves."""
+    for blk in b.blocks:
+        if blk.get("cleanup"):
+            continue
+        t = blk["term"]
+        if t["k"] == "call" and t.get("dest") and t["dest"]["l"] == l and not t["dest"]["p"]:
+            d_, r_, fn = callee(t)
+            from ..sym import short
+            return ("call", short(r_ or d_ or "?"), tuple(se.operand(a) for a in t["args"]))
+        for st in blk["stmts"]:
+            if st["k"] == "assign" and st["place"]["l"] == l and not st["place"]["p"] and st["rv"].get("k") == "use" and st["rv"]["op"].get("k") in ("move", "copy") and not st["rv"]["op"]["place"]["p"] and depth < 4:
+                return _origin(b, se, st["rv"]["op"]["place"]["l"], depth + 1)
+    return se.local_value(l)
+
+
+@rule("ANALYZE-FLUSH", ["C04", "C03"], floor=5)
+def analyze_flush(ctx):
+    """The second loop of process_matching_substring turns the event table into output without losing text: it scans
+    the offsets 0..=len(match) in characters (the unit of the event keys, which are differences of matcher
+    positions), looks the events up at exactly the scanned offset, appends current[offset] to the pending text for
+    every offset below len, hands the pending text to the handler before the events of an offset are dispatched,
+    and hands over what is pending when the scan ends."""
+    b = ctx.body(PMS)
+    if b is None:
+        return [missing(PMS)]
+    d = {}
+    loops = b.natural_loops()
+    hs = [h for h, blocks in loops.items() if any((callee(b.blocks[x]["term"])[1] or "").endswith("::characters") for x in blocks if b.blocks[x]["term"]["k"] == "call")]
+    if not hs:
+        return [bad("loop", "process_matching_substring has no loop that hands text to the handler", b.loc())]
+    h = max(hs, key=lambda x: len(loops[x]))
+    se = ctx.senv(b)
+    n = 0
+    for p in checked(d, "flush-loop", b, ctx.walk(b, start_bb=h, max_visits=1).paths):
+        gs, r = summarize(p)
+        gs = [strip_ver(g) for g in gs]
+        loc = b.loc(p.blocks[-1])
+        cs = [(e[1].split("::")[-1], [strip_ver(render(x)) for x in e[2]]) for e in p.effects if e[0] == "call"]
+        nx = [g for g in gs if re.match(r"^variant\(next\(uninit\(\d+\)\)\)=(Some|None)$", g)]
+        if not nx:
+            _rec(d, "scan-step", False, "a turn of the flush loop does not advance a scan iterator first", loc)
+            continue
+        it = int(re.search(r"uninit\((\d+)\)", nx[0]).group(1))
+        I = "next(uninit(%d)) as Some.0" % it
+        src = strip_ver(show(_origin(b, se, it)))
+        _rec(d, "scan-by-char-offset", src.endswith("into_iter(RangeInclusive::new(0, len(a2)))"), "the flush loop must scan the character offsets 0..=len(match) (the unit of the event keys); it scans %s" % src[:120], loc)
+        if nx[0].endswith("=None"):
+            tk = [g for g in gs if g.startswith("variant(Option::take(")]
+            if tk and tk[-1].endswith("=Some"):
+                _rec(d, "tail-flushed", any(c[0] == "characters" for c in cs), "text still pending when the scan ends is not handed to the handler", loc)
+            else:
+                _rec(d, "tail-empty", not any(c[0] == "characters" for c in cs), "", loc)
+            continue
+        n += 1
+        get = [c for c in cs if c[0] == "get" and len(c[1]) == 2]
+        _rec(d, "lookup-by-scan-offset", len(get) == 1 and get[0][1][1] == I, "the events must be looked up at the scanned offset; found %s" % [c[1][1:] for c in get], loc)
+        found = any(g.startswith("variant(HashMap::get(") and g.endswith("=Some") for g in gs)
+        if found:
+            tk = [g for g in gs if g.startswith("variant(Option::take(")]
+            names = [c[0] for c in cs]
+            if tk and tk[0].endswith("=Some"):
+                ev = [i for i, x in enumerate(names) if x in ("on_group_start", "on_group_end")]
+                ch = [i for i, x in enumerate(names) if x == "characters"]
+                _rec(d, "pending-text-before-events", bool(ch) and (not ev or ch[0] < ev[0]), "pending text must be handed to the handler before the events of the offset are dispatched", loc)
+        below = ("lt(%s, len(a2))" % I) in gs
+        if below:
+            app = [c for c in cs if (c[0] == "push" and c[1][1:] == ["a2[%s]" % I]) or (c[0] == "to_string" and c[1] == ["a2[%s]" % I])]
+            _rec(d, "every-character-buffered", len(app) == 1, "for an offset below the length of the match the character at that offset must be appended to the pending text exactly once; appends %s" % [c for c in cs if c[0] in ("push", "to_string")][:3], loc)
+        elif ("!lt(%s, len(a2))" % I) in gs:
+            _rec(d, "nothing-buffered-at-end", not any(c[0] in ("push", "to_string") for c in cs), "", loc)
+        elif not p.end.startswith("loop:%d" % h) and p.end.startswith("loop"):
+            p.skip = True  # inner turn of the event dispatch loop
+    for k in ("scan-by-char-offset", "lookup-by-scan-offset", "every-character-buffered", "pending-text-before-events", "tail-flushed"):
+        if k not in d:
+            d[k] = [False, "the flush loop of process_matching_substring no longer shows clause %s (restructured; re-audit)" % k, b.loc()]
+    return _emit(d)
